@@ -1204,3 +1204,164 @@ def check_divisions(prog: Program) -> list[Result]:
         else:
             out.append(Result(name, HARNESS_ERROR, sig, f"model: rows outside reported divisions at {which[0][1:] if which else ''}, but the real partitions respect them", payload, dt, 1))
     return out
+
+
+# ---------------------------------------------------------------------------------------------- C09 graph structure
+
+def graph_problems(expr):
+    """structural C09 assertions on the materialised graph of a lowered expression (data-independent)"""
+    from dask_expr._core import Expr
+    from dask_expr._expr import Fused
+
+    problems = []
+    layers = []
+    seen = set()
+    stack = [expr]
+    while stack:
+        e = stack.pop()
+        if e._name in seen:
+            continue
+        seen.add(e._name)
+        try:
+            layers.append((e, e._layer()))
+        except Exception as ex:
+            problems.append(f"{type(e).__name__}._layer raised {type(ex).__name__}: {ex}")
+            continue
+        stack.extend(e.dependencies())
+    merged = {}
+    for e, layer in layers:
+        for k, t in layer.items():
+            if k in merged and not _same_task(merged[k][1], t):
+                problems.append(f"key {k!r} defined differently by {type(merged[k][0]).__name__} and {type(e).__name__}")
+            merged.setdefault(k, (e, t))
+    dsk = {k: v[1] for k, v in merged.items()}
+    names = {k[0] for k in dsk if isinstance(k, tuple)}
+    for i in range(expr.npartitions):
+        if (expr._name, i) not in dsk:
+            problems.append(f"output key {(expr._name, i)!r} not defined")
+    for e, layer in layers:
+        if isinstance(e, Expr) and not isinstance(e, Fused):
+            for i in range(e.npartitions):
+                if (e._name, i) not in dsk and type(e).__name__ not in ("TreeReduce",):
+                    problems.append(f"{type(e).__name__}: key {(e._name, i)!r} missing for a reported partition")
+                    break
+
+    def is_keyish(t):
+        return isinstance(t, tuple) and len(t) >= 2 and isinstance(t[0], str) and t[0] in names and all(isinstance(x, (int, str)) for x in t[1:])
+
+    def scan(t, owner, local=None, depth=0):
+        if depth > 60:
+            return
+        if isinstance(t, Expr) or (hasattr(t, "expr") and hasattr(t, "__dask_graph__")):
+            problems.append(f"planner object {type(t).__name__} embedded in the task of {owner!r}")
+            return
+        if is_keyish(t):
+            if t not in dsk and not (local is not None and t in local):
+                problems.append(f"{owner!r} references undefined key {t!r}")
+            return
+        if isinstance(t, tuple) and t and t[0] is Fused._execute_task:
+            sub = t[1]
+            for kk, vv in sub.items():
+                scan(vv, (owner, kk), local=sub, depth=depth + 1)
+            for a in t[3:]:
+                scan(a, owner, local, depth + 1)
+            return
+        if isinstance(t, (list, tuple)):
+            for x in t:
+                scan(x, owner, local, depth + 1)
+        elif isinstance(t, dict):
+            for x in t.values():
+                scan(x, owner, local, depth + 1)
+
+    for k, t in dsk.items():
+        scan(t, k)
+    # acyclic
+    state = {}
+
+    def deps_of(t, out, depth=0):
+        if depth > 60:
+            return
+        if is_keyish(t) and t in dsk:
+            out.append(t)
+        elif isinstance(t, (list, tuple)):
+            for x in t:
+                deps_of(x, out, depth + 1)
+        elif isinstance(t, dict):
+            for x in t.values():
+                deps_of(x, out, depth + 1)
+
+    import sys
+
+    sys.setrecursionlimit(10000)
+
+    def visit(k):
+        st = state.get(k)
+        if st == 1:
+            return False
+        if st == 2:
+            return True
+        state[k] = 1
+        out = []
+        t = dsk[k]
+        deps_of(t[1:] if (isinstance(t, tuple) and t and callable(t[0])) else t if not is_keyish(t) else [t], out)
+        for d in out:
+            if d != k and not visit(d):
+                return False
+        state[k] = 2
+        return True
+
+    for k in list(dsk):
+        if not visit(k):
+            problems.append(f"cycle through {k!r}")
+            break
+    return problems, len(dsk)
+
+
+def _same_task(a, b):
+    try:
+        if a is b:
+            return True
+        if type(a) is not type(b):
+            return False
+        if isinstance(a, (tuple, list)):
+            return len(a) == len(b) and all(_same_task(x, y) for x, y in zip(a, b))
+        if isinstance(a, dict):
+            return a.keys() == b.keys() and all(_same_task(a[k], b[k]) for k in a)
+        if isinstance(a, (pd.DataFrame, pd.Series, pd.Index)):
+            return a.equals(b)
+        r = a == b
+        return bool(r) if isinstance(r, (bool, np.bool_)) else True
+    except Exception:
+        return True
+
+
+def check_graphs(prog: Program) -> list[Result]:
+    """C09 by-product of engine P: graph structure of every optimiser stage, fused and unfused; the symbolic interpreter also
+    executes every graph, so an undefined key or a cycle on an executed path surfaces as GraphError there."""
+    init()
+    from dask_expr._expr import optimize
+    import pickle
+
+    env, frames = make_env(prog)
+    try:
+        q = prog.build(make_collections(prog, frames))
+    except Exception as e:
+        return [Result(prog.name + "|graph", SKIPPED, "", f"program does not build: {type(e).__name__}")]
+    out = []
+    for stage in ["unopt"] + STAGES:
+        name = f"{prog.name}|graph|{stage}"
+        try:
+            pl = plan(q.expr, stage)
+        except Exception as e:
+            out.append(Result(name, SKIPPED, "", f"planning failed: {type(e).__name__}: {str(e)[:80]}"))
+            continue
+        try:
+            probs, nkeys = graph_problems(pl)
+        except Exception as e:
+            out.append(Result(name, SKIPPED, "", f"graph could not be materialised: {type(e).__name__}: {str(e)[:80]}"))
+            continue
+        if probs:
+            out.append(Result(name, VIOLATION, _sig(prog, "graph|" + stage), "; ".join(probs[:3]), {"engine": "P", "program": prog.name, "stage": "graph|" + stage}, 0.0, 0, {"keys": nkeys}))
+        else:
+            out.append(Result(name, HELD, "", f"{nkeys} keys: outputs defined, closed, acyclic, unambiguous, no planner objects", None, 0.0, 0, {"keys": nkeys}))
+    return out
